@@ -6,7 +6,9 @@
    crashes (C28 outside the known failure shape), and -- as a witness -- that the strict invariant is
    refuted for the code as it is once a crash may hit the legacy bootstrap.
 2. Real SQLite files are built in every start state (prefix databases by the real run_migrations over
-   the first k real SQL files; legacy databases in two construction styles), the real run_migrations
+   the first k real SQL files; legacy databases in two construction styles; and -- independent of what the
+   tree's files say today -- the databases that the migration texts AS RELEASED (harness/data/c28_released)
+   leave behind after versions 1..k, recorded and legacy style), the real run_migrations
    is run three times (new connection per call / one connection / two alternating connections;
    thorough: also through SqliteWorkflowStore.run_migrations), and it is killed right before every one
    of its SQL statements -- the database file and its WAL are copied aside from inside sqlite3's
@@ -27,7 +29,8 @@ from harness.core import SPECS, Machinery
 
 LEVEL = "model_checking"
 RULE = ("start states = fresh + every recorded prefix 0..N + every legacy user_version 1..N (two construction "
-        "styles) x connection mode, three runs each; plus a kill before every SQL statement of the real run "
+        "styles) built from the tree's migration files + the databases the RELEASED migration texts 1..k leave "
+        "behind (recorded and legacy style) x connection mode, three runs each; plus a kill before every SQL statement of the real run "
         "(and, thorough, a second kill before every statement of the re-run) followed by two runs; plus crash "
         "schedules from TLC's state graph. Every trace is non-trivial (DESIGN 5.0: all); distinct = distinct "
         "(start, schedule)")
@@ -198,6 +201,9 @@ def run(chk):
     styles = ["scripts", "consolidated"]
     starts = [("fresh", 0, "-")] + [("prefix", k, "-") for k in range(0, n + 1)] + \
              [("legacy", k, s) for k in range(1, n + 1) for s in styles]
+    # databases left behind by an earlier RELEASE: built from the stored released texts, not from the tree
+    n_rel = len(drv.released_files())
+    rel_starts = [("rel_prefix", k, "-") for k in range(1, n_rel + 1)] + [("rel_legacy", k, "scripts") for k in range(1, n_rel + 1)]
     traces, descr = [], []
     templates = {}
 
@@ -208,8 +214,9 @@ def run(chk):
             drv.build_start(t, chk.work, ref, kind, k, style)
             templates[start] = (str(t), drv.project(t, ref))
         drv.copy_db(templates[start][0], str(dbpath))
-        return ({"start": "%s:%d:%s:%s" % (kind, k, style, mode), "pre": templates[start][1], "events": []},
-                drv.Db(dbpath, mode))
+        origin = {"rel_prefix": "released_prefix", "rel_legacy": "released_legacy"}.get(kind, "tree")
+        return ({"start": "%s:%d:%s:%s" % (kind, k, style, mode), "origin": origin, "pre": templates[start][1],
+                 "events": []}, drv.Db(dbpath, mode))
 
     def do_run(tr, db):
         res, changes = db.run()
@@ -225,7 +232,7 @@ def run(chk):
 
     # 2a. the stated property: every start, three runs, three connection modes (trace 1 = fresh/newconn)
     for mode in ("newconn", "sameconn", "twoconn") + (() if chk.quick else ("store",)):
-        for start in starts:
+        for start in starts + rel_starts:
             tr, db = new_trace(start, mode)
             try:
                 for _ in range(3):
@@ -240,7 +247,7 @@ def run(chk):
     #     a second kill inside the re-run as well (quick: for two starts; thorough: everywhere)
     n_crash1 = n_crash2 = 0
     second_level = set()
-    for start in starts:
+    for start in starts + ([] if chk.quick else rel_starts):
         tr, db = new_trace(start, "newconn")
         points = db.kill_points(snapdir=str(chk.work / "snaps1"))
         for point in points:
@@ -345,6 +352,7 @@ def run(chk):
         reached, res = f2.result()
     matched = 0
     seen = set()
+    ref_final = traces[0]["events"][0]["post"]["schema"]      # the observer's Ref (fresh database, first run)
     for i, tr in enumerate(traces, 1):
         clause, l = verdicts[i][0], verdicts[i][1]
         cause = verdicts[i][2] if len(verdicts[i]) > 2 else "-"
@@ -356,7 +364,9 @@ def run(chk):
                           {"start": tr["start"], "schedule": descr[i - 1][2],
                            "events": [{k: e[k] for k in ("op", "res", "at", "stmt", "changes")} for e in tr["events"]],
                            "pre": {k: tr["pre"][k] for k in ("feat", "rows", "uv", "has_sm")},
-                           "failing_post": {k: ev.get("post", {}).get(k) for k in ("feat", "rows", "uv", "has_sm")}})
+                           "failing_post": {k: ev.get("post", {}).get(k) for k in ("feat", "rows", "uv", "has_sm")},
+                           "schema_missing_vs_fresh": sorted(set(ref_final) - set(ev.get("post", {}).get("schema", []))),
+                           "schema_extra_vs_fresh": sorted(set(ev.get("post", {}).get("schema", [])) - set(ref_final))})
         if reached.get(i, 0) == len(tr["events"]):
             matched += 1
         elif len(chk.notes) < 10:
@@ -369,7 +379,7 @@ def run(chk):
         chk.note("the interrupted legacy bootstrap no longer fails on this tree: Dev_BootstrapNotAtomic = FALSE is "
                  "the variant bound to the code")
     chk.add(evaluations=len(traces), distinct_nontrivial=len(seen), traces_validated_against_impl=matched,
-            stated_traces=n_stated, single_kill_traces=n_crash1, double_kill_traces=n_crash2,
+            stated_traces=n_stated, released_start_states=len(rel_starts), single_kill_traces=n_crash1, double_kill_traces=n_crash2,
             model_schedules_replayed=n_model, real_kills=n_real_kill, code_follows_dev_variant=bool(dev))
     for idx in (0, n_stated, len(traces) - 1):
         tr = traces[idx]
@@ -377,6 +387,8 @@ def run(chk):
                     "events": [[e["op"], e["res"], e["post"]["feat"], e["post"]["rows"]] for e in tr["events"]]})
     chk.exhaustive = True
     chk.assumptions += [
+        "harness/data/c28_released holds the migration texts as released at the pinned tree (append-only): databases "
+        "built from them stand for databases in the field, whatever the tree's migration files say today",
         "a crash is a process kill (os._exit in a forked child, right before a statement): SQLite's own "
         "durability of committed transactions is trusted; power loss / torn pages are not modelled",
         "legacy user_version databases are reconstructed (no legacy migrator exists in the tree): schema of the "
